@@ -21,12 +21,14 @@ EXPLANATION = (
     "inversion/direction taken from the declaration; (d) constraint templates of the SiliconBlue, Lattice and Gowin "
     "platforms: every location line inside a loop over iter_port_constraints_bits() has the port variable in the net "
     "slot and the pin variable in the site slot of its format, and clock lines use the loop's frequency in the unit "
-    "of their format. NOT decided: end-to-end content of rendered plans."
+    "of their format; (e) net naming: the back end records (*module path, leaf) for every signal, the "
+    "`hierarchy` template filter joins every component after the design name, and every signal-clock template line "
+    "names its net through that filter. NOT decided: end-to-end content of rendered plans."
 )
 ASSUMPTIONS = ["CPython ast parses /repo's source as the interpreter would",
                "constraint file formats (set_io / LOCATE COMP / ldc_set_location / IO_LOC; set_frequency MHz, FREQUENCY Hz, "
                "create_clock -period ns) frozen in sa/rules/c19.py"]
-MIN_INSTANCES = {"R-19a": 1, "R-19b": 3, "R-19c": 5, "R-19d": 10}
+MIN_INSTANCES = {"R-19e": 11, "R-19a": 1, "R-19b": 3, "R-19c": 5, "R-19d": 10}
 
 STATE_ATTRS = {"_phys_reqd", "_pins", "_io_clocks", "_clocks", "_requested"}
 MUT_CALLS = {"append", "add", "update", "pop", "clear", "setdefault", "extend", "insert", "remove", "popitem"}
@@ -386,4 +388,92 @@ def r19d(model, ctx):
               f"{RES}:{fr.lineno}")
 
 
-RULES = [("R-19a", r19a), ("R-19b", r19b), ("R-19c", r19c), ("R-19d", r19d)]
+def r19e(model, ctx):
+    """net naming in constraint files: the hierarchy filter names a net by every path component the back end recorded
+    for it, minus the design name (writer: back/rtlil.py ModuleEmitter stores (*module.name, leaf); the top module's name
+    is the 1-tuple (name,) given to Design()); IOPorts are named by their own name; the filter is registered."""
+    R = "R-19e"
+    PLAT, RTL, IRP = "amaranth/build/plat.py", "amaranth/back/rtlil.py", "amaranth/hdl/_ir.py"
+    # writer side
+    mod = model.mod(RTL)
+    writes = [n for n in ast.walk(mod.tree) if isinstance(n, ast.Assign) and isinstance(n.targets[0], ast.Subscript)
+              and unparse(n.targets[0].value) == "self.name_map"]
+    need(len(writes) >= 2, "rtlil: name_map writers not found")
+    for w in writes:
+        v = w.value
+        ok = isinstance(v, ast.Tuple) and len(v.elts) == 2 and isinstance(v.elts[0], ast.Starred) and \
+            unparse(v.elts[0].value) == "self.module.name"
+        ctx.check(ok, R, f"rtlil:name_map[{unparse(w.targets[0].slice)}]={unparse(v.elts[-1]) if isinstance(v, ast.Tuple) else '?'}",
+                  "(*module path, leaf name)", f"the back end must record a signal's name as (*self.module.name, leaf); found "
+                  f"{unparse(v)}", f"{RTL}:{w.lineno}")
+    # depth of the top-level path
+    depth = set()
+    for rel, where in ((IRP, "build_netlist"), (PLAT, "TemplatedPlatform.prepare"), (PLAT, "Platform.prepare")):
+        try:
+            f = model.func(f"{rel}::{where}")
+        except AnalysisError:
+            continue
+        for n in ast.walk(f):
+            if isinstance(n, ast.keyword) and n.arg == "hierarchy" and isinstance(n.value, ast.Tuple):
+                depth.add(len(n.value.elts))
+    need(depth == {1}, f"top-level hierarchy tuples have lengths {sorted(depth)}; expected exactly (name,)")
+    # reader side
+    f = model.func(f"{PLAT}::TemplatedPlatform.toolchain_prepare.hierarchy")
+    rets = [n for n in ast.walk(f) if isinstance(n, ast.Return)]
+    env = {}
+    for st in ast.walk(f):
+        if isinstance(st, ast.Assign) and isinstance(st.targets[0], ast.Name):
+            env[st.targets[0].id] = st.value
+    from ..engine.symx import subst
+    joined = [subst(r.value, env) for r in rets if "join" in unparse(r.value)]
+    ok = False
+    found = "-"
+    if len(joined) == 1:
+        m = pmatch("separator.join(_V_X)", joined[0])
+        found = unparse(joined[0])
+        if m is not None and isinstance(m["_V_X"], ast.Subscript) and isinstance(m["_V_X"].slice, ast.Slice):
+            sl = m["_V_X"].slice
+            ok = unparse(m["_V_X"].value) == "self._name_map[net]" and sl.lower is not None and const_int(sl.lower) == 1 and \
+                sl.upper is None and (sl.step is None or const_int(sl.step) == 1)
+    ctx.check(ok, R, "hierarchy-filter:path", "separator.join(self._name_map[net][1:]) — every component below the design name",
+              f"the hierarchy filter must name a net by all recorded path components after the design name "
+              f"(self._name_map[net][1:]); found {found}: a clock constraint on a net inside a submodule would name a different net",
+              f"{PLAT}:{f.lineno}")
+    ok = any(isinstance(r.value, ast.Attribute) and unparse(r.value) == "net.name" for r in rets) and \
+        any(isinstance(n, ast.If) and unparse(n.test) == "isinstance(net, IOPort)" for n in ast.walk(f))
+    ctx.check(ok, R, "hierarchy-filter:ioport", "an IOPort is named by its own name", "the hierarchy filter must name an IOPort by "
+              "net.name", f"{PLAT}:{f.lineno}")
+    tp = model.func(f"{PLAT}::TemplatedPlatform.toolchain_prepare")
+    regs = {}
+    for n in ast.walk(tp):
+        if isinstance(n, ast.Assign) and isinstance(n.targets[0], ast.Subscript) and \
+                unparse(n.targets[0].value) == "compiled.environment.filters":
+            regs[unparse(n.targets[0].slice)] = unparse(n.value)
+    bad = {k: v for k, v in regs.items() if k.strip("'\"") != v}
+    ctx.check(not bad and "'hierarchy'" in regs, R, "template-filters:registration", f"{len(regs)} filters registered under their own names",
+              f"template filters registered under a different function: {bad}", f"{PLAT}:{tp.lineno}")
+    # every signal-clock template line goes through the filter (port clocks use port.name or the filter)
+    n_sig = 0
+    for rel in VENDORS:      # the property's scope: templates of the open toolchains that render offline
+        m = model.mod(rel)
+        for n in ast.walk(m.tree):
+            if isinstance(n, ast.Constant) and isinstance(n.value, str) and "iter_signal_clock_constraints()" in n.value:
+                lines = n.value.splitlines()
+                for i, l in enumerate(lines):
+                    if "iter_signal_clock_constraints()" not in l:
+                        continue
+                    body = []
+                    for l2 in lines[i + 1:]:
+                        if re.match(r"\s*\{%-?\s*endfor", l2):
+                            break
+                        body.append(l2)
+                    text = " ".join(body)
+                    n_sig += 1
+                    ok = "signal|hierarchy(" in text.replace(" ", "")
+                    ctx.check(ok, R, f"{rel.split('/')[-1]}:template@{n.lineno}+{i}:signal-clock-net", "net named through |hierarchy(sep)",
+                              f"signal clock constraint names its net without the hierarchy filter: {text.strip()[:100]!r}",
+                              f"{rel}:{n.lineno + i}")
+    need(n_sig >= 7, f"only {n_sig} signal clock template loops found")
+
+
+RULES = [("R-19e", r19e), ("R-19a", r19a), ("R-19b", r19b), ("R-19c", r19c), ("R-19d", r19d)]
